@@ -122,7 +122,10 @@ func SweepFills() []string {
 	for b := 0; b < 256; b++ {
 		fills = append(fills, string([]byte{byte(b)}))
 	}
-	return append(fills, "%s", "%d", "%%", "%!", "%v%", "é", "\u212a", "\ufffd", "\u00a0", "\u2028", "\u3000", "\xe2\x82", "\r\n", "\n\n", "//", "/*", "*/")
+	fills = append(fills, "%s", "%d", "%%", "%!", "%v%", "é", "\u212a", "\ufffd", "\u00a0", "\u2028", "\u3000", "\xe2\x82", "\r\n", "\n\n", "//", "/*", "*/")
+	fills = append(fills, enum.LongFills('a')...)
+	fills = append(fills, strings.Repeat("(", 300), strings.Repeat("a (\n", 200), strings.Repeat("x ", 40000))
+	return fills
 }
 
 // ---------------------------------------------------------------- directive layer
